@@ -476,7 +476,10 @@ class ConfigLoader(BaseConfig):
                             #    lower = self.config["particle"][i]["m0"] - 10 * m_sigma
                             else:
                                 lower = None
-                            self.bound_dic[str(p_i.mass)] = (lower, upper)
+                            # keeps a range declared as mass_range
+                            self.bound_dic.setdefault(
+                                str(p_i.mass), (lower, upper)
+                            )
                         else:
                             self._neglect_when_set_params.append(str(p_i.mass))
                         if "g" in particle_config["float"]:
@@ -493,7 +496,10 @@ class ConfigLoader(BaseConfig):
                             #    lower = self.config["particle"][i]["g0"] - 10 * g_sigma
                             else:
                                 lower = None
-                            self.bound_dic[str(p_i.width)] = (lower, upper)
+                            # keeps a range declared as width_range
+                            self.bound_dic.setdefault(
+                                str(p_i.width), (lower, upper)
+                            )
                         else:
                             self._neglect_when_set_params.append(
                                 str(p_i.width)
